@@ -65,8 +65,9 @@ type Peer struct {
 
 	Sig, Enc *tk.Leaf // the puppet's own key pairs (may be nil)
 
-	HoldHS bool   // SendHS keeps the message back (to be packed into one record with the next one)
-	heldHS []byte // handshake messages kept back
+	GuessPre []byte // server role: take this as the pre-master secret instead of decrypting the ClientKeyExchange
+	HoldHS   bool   // SendHS keeps the message back (to be packed into one record with the next one)
+	heldHS   []byte // handshake messages kept back
 
 	Vers       uint16
 	Suite      uint16
@@ -515,6 +516,10 @@ func (p *Peer) setPre(pre []byte) {
 
 func (p *Peer) serverProcessCKX(body []byte) {
 	if p.ForceMaster != nil {
+		return
+	}
+	if p.GuessPre != nil { // a peer without the decryption key that bets on this pre-master secret
+		p.setPre(append([]byte(nil), p.GuessPre...))
 		return
 	}
 	if IsECDHE(p.Suite) {
